@@ -98,14 +98,20 @@ func c17TreeFragAlone(sc c17Scenario) c17Prog {
 	return c17Number(p)
 }
 
-// does the code analyse the fragment on its own while checking package pk?
-// It does for a fragment in pk's directory that pk does not include.
-func c17TreeAlone(sc c17Scenario, pk c17TreePkg) bool {
-	inDir := (sc.FragLoc == "own" && pk.Dir == "pa") || (sc.FragLoc == "other" && pk.Dir == "pb")
-	if !inDir {
-		return false
+// Is the fragment analysed on its own while package pk is checked?  The answer
+// comes from Spec/SpellingIndep.analysed_alone (extracted): it is, iff it lies
+// in pk's directory and no .include line of pk's Makefile DENOTES it.  The
+// request: directories relative to the pkgsrc root, ${.CURDIR} resolved to "."
+// (MkLine.ResolveExprsInRelPath).
+func c17TreeAloneReq(sc c17Scenario, pk c17TreePkg) c17AloneReq {
+	frag := sc.fragPath("cat")
+	r := c17AloneReq{pkgdir: "cat/" + pk.Dir, fragdir: path.Dir(frag), fragbase: path.Base(frag)}
+	if pk.Spelling != "" {
+		sp := strings.ReplaceAll(pk.Spelling, "CAT", "cat")
+		sp = strings.ReplaceAll(sp, "${.CURDIR}", ".")
+		r.incs = append(r.incs, [2]string{"cat/" + pk.Dir, sp})
 	}
-	return pk.Spelling == ""
+	return r
 }
 
 type c17PathVerdict struct {
@@ -241,6 +247,27 @@ func c17TreeJudge(ctx *Ctx, res *Result, runs []c17TreeRunResult) {
 		res.Broken = err.Error()
 		return
 	}
+	// which fragments are analysed on their own (by denotation of the include lines)
+	var aloneReqs []string
+	aloneAt := map[ctxRef]int{}
+	for i, r := range runs {
+		for k, pk := range r.sc.Pkgs {
+			aloneAt[ctxRef{i, k}] = len(aloneReqs)
+			aloneReqs = append(aloneReqs, c17TreeAloneReq(r.sc, pk).request())
+		}
+	}
+	aloneAns, err := runOracle(ctx, "c17", aloneReqs)
+	if err != nil {
+		res.Broken = err.Error()
+		return
+	}
+	for _, a := range aloneAns {
+		if a != "0" && a != "1" {
+			res.Broken = "oracle answer " + q(a)
+			return
+		}
+	}
+	treeAlone := func(i, k int) bool { return aloneAns[aloneAt[ctxRef{i, k}]] == "1" }
 	models := map[ctxRef]c17Model{}
 	for k, a := range ans {
 		m, err := c17ParseModel(a)
@@ -286,7 +313,7 @@ func c17TreeJudge(ctx *Ctx, res *Result, runs []c17TreeRunResult) {
 				expected[pv] = true
 				inContext[pv] = append(inContext[pv], k)
 			}
-			if c17TreeAlone(sc, pk) {
+			if treeAlone(i, k) {
 				res.Count("pkgtree_fragment_analysed_alone", 1)
 				for _, mv := range models[ctxRef{i, -1}].verdicts {
 					expected[toPath(aloneCtx[i], mv.c17Verdict)] = true
@@ -426,7 +453,7 @@ func c17TreeReason(sc c17Scenario, v c17PathVerdict, cat string) string {
 		return "fragment-in-no-package-directory"
 	case own.Spelling == "":
 		return "fragment-included-only-by-another-package"
-	case strings.HasPrefix(own.Spelling, "${.CURDIR}"):
+	case own.Spelling == "${.CURDIR}/inc.mk":
 		return "fragment-included-as-curdir"
 	}
 	return "fragment-included-by-its-package"
@@ -486,7 +513,8 @@ func c17RandomLines(rng *Rng, nv, n int, focus bool) c17Prog {
 func c17TreeSpellings(loc, dir string) map[string]string {
 	switch {
 	case (loc == "own" && dir == "pa") || (loc == "other" && dir == "pb"):
-		return map[string]string{"plain": "inc.mk", "dot-slash": "./inc.mk", "canonical": "../../CAT/" + dir + "/inc.mk", "curdir": "${.CURDIR}/inc.mk"}
+		return map[string]string{"plain": "inc.mk", "dot-slash": "./inc.mk", "canonical": "../../CAT/" + dir + "/inc.mk", "curdir": "${.CURDIR}/inc.mk",
+			"detour-sibling": "../" + dir + "/inc.mk", "detour-updown": "../../CAT/../CAT/" + dir + "/inc.mk", "curdir-detour": "${.CURDIR}/../" + dir + "/inc.mk"}
 	case loc == "own":
 		return map[string]string{"sibling": "../pa/inc.mk", "canonical": "../../CAT/pa/inc.mk"}
 	case loc == "other":
